@@ -77,6 +77,11 @@ pub fn swarm(seed: u64, est_len: u64) -> (Sched, FaultCfg) {
         f.timer_late_p = 0.05 + 0.3 * (r.below(100) as f64) / 100.0;
         f.timer_late_max_ms = 1 + r.below(300);
     }
+    if r.chance(0.35) {
+        f.slow_thread_p = 0.2 + 0.4 * (r.below(100) as f64) / 100.0;
+        f.slow_point_p = 0.01 * (1 + r.below(15)) as f64;
+        f.slow_max_ms = 1 + r.below(30);
+    }
     (sched, f)
 }
 
@@ -92,6 +97,7 @@ pub fn knobs_json(cfg: &Config) -> Value {
         "stall": [cfg.faults.stall_p, cfg.faults.stall_max_ms],
         "late_start": [cfg.faults.late_start_p, cfg.faults.late_start_max_ms],
         "timer_late": [cfg.faults.timer_late_p, cfg.faults.timer_late_max_ms],
+        "slow_thread": [cfg.faults.slow_thread_p, cfg.faults.slow_point_p, cfg.faults.slow_max_ms],
     })
 }
 
